@@ -30,6 +30,7 @@ type c03Base struct {
 	Frames    []int    // indices into Items of frames
 	Props     []int    // indices into Items of the proposal lines the frames belong to (same order)
 	FSLine    int      // index of the peer's FS answer line (-1)
+	LibSizes  [][2]int // (uncompressed, compressed) size of each message the library proposed in the clean run
 	Msgs      [][]byte // decoded message per frame
 }
 
@@ -64,6 +65,13 @@ func c03Bases() []*c03Base {
 				l.Run(func(c *link.Conn) { res = sess.RunScriptConn(st, "N0PEER", c) }, func(c *link.Conn) { peer.Run(c) })
 				if res.Err != nil || res.Panic != "" || !peer.Done {
 					panic(fmt.Sprintf("C03 base %s did not complete cleanly: %v %s %s", b.Name, res.Err, res.Panic, peer.Fatal))
+				}
+				for _, it := range parseWire(l.Written(0)) {
+					if f := strings.Fields(it.Line); it.Frame == nil && len(f) == 6 && f[0] == "FC" {
+						u, _ := strconv.Atoi(f[3])
+						c, _ := strconv.Atoi(f[4])
+						b.LibSizes = append(b.LibSizes, [2]int{u, c})
+					}
 				}
 				b.Raw = append([]byte{}, l.Written(1)...)
 				b.Items = parseWire(b.Raw)
@@ -191,12 +199,21 @@ type c03Case struct {
 var c03Bytes = []byte{0x00, 0x0d, 0x0a, 0x20, 0x2a, 0x2d, 0x30, 0x39, 0x3b, 0x3e, 0x46, 0xff}
 var c03Nums = []string{"-1", "0", "1", "999999", "1000000", "2147483647", "2147483648", "9223372036854775808", "100000000000000000000"}
 var c03Lines = []string{"F", "F>", "F> ", "FS", "FS ", "FS !", "FS A", "FS +++++++", "FC", "FC EM", ";PQ", ";PQ:", ";FW", ";FW:", ";PM", "[", "[]", "[-]", "*", "***", "\x00", "\x00\x00", strings.Repeat("A", 300),
-	"FS !999999", "FS A5000", "FS !-1", "FS +!", "FC EM X 1 1 0", "FC EM MID -1 -1 0", "FD EM M 10 10 0", "FA P A B C 1_A 10", "FQ", "FF", "F> 00", ";PM: a", "; x", "*** error", "[x-B2F$]", "[x-F$]", ">"}
+	"FS !999999", "FS A5000", "FS !-1", "FS +!", "FC EM X 1 1 0", "FC EM MID -1 -1 0", "FD EM M 10 10 0", "FA P A B C 1_A 10", "FQ", "FF", "F> 00", ";PM: a", "; x", "*** error", "[x-B2F$]", "[x-F$]", ">",
+	// well-formed protocol lines at places where they are not expected (appended: indices above are in replay files)
+	";PM: N0LIB PMMSGID00001 123 N0PEER@winlink.org a pending message", ";PM: N0LIB PMMSGID00001 123 N0PEER@winlink.org", ";FW: N0PEER", ";FW: N0PEER N0AUX|12345678", ";PQ: 12345678",
+	"; N0LIB DE N0PEER (AA00aa)", "FC EM NEWMSGID0001 100 90 0", "FS +", "FS -", "FS =", "FS +-=", "FS !10", "FS A10", "FS H", "[WL2K-5.0-B2FWIHJM$]", "N0PEER>", "CMS>"}
 
 // values for the numeric fields of a proposal line (block checksum re-sealed)
 var c03PropNums = []string{"-1", "0", "00", "1", "", "x", "0x12C", "+-1", "999999", "1000000", "2147483647", "2147483648", "1073741824", "9223372036854775807", "9223372036854775808", "100000000000000000000"}
 
 var c03MsgNums = []string{"-1", "0", "+1", "-d1", "10000000000", "3000000000", "2147483647", "99999999999999999999"}
+
+// c03Offsets are the offsets a peer may ask for, around the two sizes of a proposal.
+func c03Offsets(sz [2]int) []int {
+	u, c := sz[0], sz[1]
+	return []int{0, 1, 2, 5, 6, 7, c / 2, c - 2, c - 1, c, c + 1, c + 2, (c + u) / 2, u - 1, u, u + 1, u + 2, 2 * u}
+}
 
 type digitRun struct{ s, e int }
 
@@ -297,6 +314,13 @@ func c03Cases(bases []*c03Base, thorough bool) []c03Case {
 				cs = append(cs, c03Case{bi, "line-repl", li, k, ""}, c03Case{bi, "line-ins", li, k, ""})
 			}
 			li++
+		}
+		// the peer accepts the library's proposal at an offset: boundaries of the compressed and of the
+		// uncompressed size (the offset indexes the compressed data)
+		if b.FSLine >= 0 && len(b.LibSizes) > 0 {
+			for k := range c03Offsets(b.LibSizes[0]) {
+				cs = append(cs, c03Case{bi, "fs-offset", k, 0, ""}, c03Case{bi, "fs-offset", k, 1, ""})
+			}
 		}
 		// proposal-line fields with the block checksum re-sealed, so that the transfer still happens
 		for k := range b.Props {
@@ -413,6 +437,10 @@ func (c c03Case) materialise(bases []*c03Base, shorts []string) []byte {
 		default:
 			return cat(raw[:it.Off], []byte(c03Lines[c.B]+"\r"), raw[it.Off:])
 		}
+	case "fs-offset":
+		line := fmt.Sprintf("FS %c%d", "!A"[c.B], c03Offsets(b.LibSizes[0])[c.A])
+		it := b.Items[b.FSLine]
+		return cat(raw[:it.Off], []byte(line+"\r"), raw[it.End:])
 	case "prop-field-resealed":
 		pi := b.Props[c.A]
 		f := strings.Fields(b.Items[pi].Line)
